@@ -34,7 +34,7 @@ class Violation(object):
 class Check(object):
     """Collects the obligations of one property's rule set."""
 
-    def __init__(self, pid, prog=None, tier="quick", inline_depth=2):
+    def __init__(self, pid, prog=None, tier="quick", inline_depth=6):
         self.pid = pid
         self.prog = prog or Program()
         self.tier = tier
